@@ -338,6 +338,9 @@ func check(ctx *pbt.Ctx, c Case) error {
 	scr := &tracer{scribble: true}
 	withScr := libexec.Run(c.Unlock, c.Lock, flags, c.Ctx, scr)
 	dd := debug.NewDebugger()
+	if (len(c.Lock)+len(c.Unlock))%2 == 1 { // the debugger's documented option; must be as unobtrusive
+		dd = debug.NewDebugger(debug.WithRewind())
+	}
 	var ddSeq strings.Builder
 	dd.AttachBeforeExecute(func(*interpreter.State) { ddSeq.WriteByte('E') })
 	dd.AttachAfterExecute(func(*interpreter.State) { ddSeq.WriteByte('e') })
